@@ -172,6 +172,10 @@ def run(ctx):
     prims.adv_rule(rp_, repo)
     rp_.require(9, "primitives")
 
+    # ---- stack built-ins: PEEK[a..b] index arithmetic is pest's, each built-in uses the right stack operation (C06's instances)
+    from . import c06
+    c06.run(ctx, ids=("R01-STACKIDX", "R01-STACKOPS", None), own=False)
+
     # ---- R01-OPMAP
     ro = ctx.rule("R01-OPMAP", "for each pest operator form the generated type has the class tree of that operator (children in grammar order), "
                                "optimizer on and off")
